@@ -201,7 +201,7 @@ def cases(c):
     for crit in ('AICc', 'AKICc'):
         out.append({'N': 4, 'order': 2, 'cplx': 0, 'kind': 'literal', 'values': [1, -0.9, 0.8, -0.7], 'crit': crit,
                     'cont': 'array', 'directed': True})
-    for i in range(1000 if c.tier == 'quick' else 54000):
+    for i in range(1000 if c.tier == 'quick' else 216000):
         N = int(rng.integers(4, 201 if i % 3 == 0 else 48))
         kind = gen.pick(rng, KINDS)
         d = {'N': N, 'order': int(rng.integers(1, min(N - 2, 30) + 1)), 'cplx': int(rng.integers(0, 2)),
